@@ -3,6 +3,11 @@
 import json, os, subprocess
 
 CLAIMS = {
+ "C10": dict(
+   category="exploration", design_ref="DESIGN.md §5 C10",
+   technique="property-based robustness testing (rapid) plus native coverage-guided fuzzing (go test -fuzz) of every untrusted-input entry point, with measured oracles: recovered panics, watchdog for termination, a counting proxy assembler for nesting depth and size hints, runtime allocation delta against K·(budget+input)",
+   text="Generated and hostile byte strings (length claims up to 2^64 on every major type, nesting ramps, token soup, mutated valid encodings, digit runs, huge exponents, lone surrogates) go to the dag-cbor, cbor, dag-json, json and raw decoders under every combination of depth limit, allocation budget, preallocation cap, relaxed, links, parse-bytes and stop-at-end, into generic, kind-specific, proxy and reflection-bound assemblers. Every call must return a result or an error (no panic, 10 s watchdog), never nest deeper than MaxDepth, never pass a size hint above the cap, and never allocate more than 1 MiB + 512 B·(budget + input length). Selector specs from an unconstrained generator (extreme integers, degenerate recursion) must compile or be rejected within an allocation bound, and every compiled selector must walk (three walk functions) without panic or hang. ParsePath and all path accessors on arbitrary strings. Thorough adds three native fuzz targets with the same oracles inside.",
+   note="The allocation bound is a measured inequality with a fixed constant (≥2.5× head-room on the unchanged tree): regressions that stay inside it are not noticed. Wall-clock is only a last-resort non-termination alarm (10 s for ≤4 KiB inputs). Native fuzzing cannot be pinned to a seed; its failing inputs are saved as ordinary replay cases."),
  "C17": dict(
    category="exploration", design_ref="DESIGN.md §5 C17",
    technique="model-based testing over generated operation histories (rapid) against a model map, with an outside-tree snapshot and a hook-recorded list of every path handed to the OS for containment",
